@@ -56,7 +56,7 @@ PROPS["C02"] = dict(
     rule=PAIR_RULE + "; implementation answers A.Intersects(B), B.Intersects(A) compared with the Coq model and with the arrangement oracle meets_x",
     trusted_base=COMMON_TB + ["the executable arrangement oracle coq/PairSpec.v (meets_x) as ground truth for polygon pairs: its completeness is not proved (polygonal Jordan curve theorem, DESIGN §9)"],
     assumptions=["float64 exact on D"],
-    partial=["ring x segment, ring x line string and ring x ring (polygons without holes) are proved exact as point sets and symmetric (Jordan.v, JordanQ.v, JordanRing.v); rect x line and rect x polygon-without-holes likewise (JordanRect.v); polygon WITH holes x line string of fewer than 16 points is proved exact under explicit hypotheses (each hole not flagged convex or really convex; holes inside the exterior and not overlapping: Holes.v); the other pairs involving holes are explored against the oracle, not proved"],
+    partial=["ring x segment, ring x line string and ring x ring (polygons without holes) are proved exact as point sets and symmetric (Jordan.v, JordanQ.v, JordanRing.v); rect x line and rect x polygon-without-holes likewise (JordanRect.v); polygon WITH holes x line string of any length is proved exact under explicit hypotheses (each hole not flagged convex or really convex; holes inside the exterior and not overlapping: Holes.v; the 16-point bounding-box shortcut of ringContainsRing is proved sound in strict mode: HoleBox.v); the other pairs involving holes are explored against the oracle, not proved"],
 )
 PROPS["C03"] = dict(
     translated_functions=['Rect.ContainsPoint', 'Rect.ContainsRect', 'Rect.IntersectsRect', 'Segment.Rect', 'Segment.IntersectsSegment', 'Segment.ContainsSegment', 'Segment.CollinearPoint', 'Point.ContainsPoint', 'Point.ContainsRect', 'Rect.ContainsLine', 'Rect.ContainsPoly', 'Point.ContainsLine', 'Point.ContainsPoly', 'Poly.ContainsRect'],
@@ -82,7 +82,7 @@ PROPS["C04"] = dict(
     trusted_base=COMMON_TB + ["float64 byte layout of the R-tree node boxes: IndexExec.f64_bits (normal finite values k*2^-s) — exercised byte-for-byte by the correspondence, not proved equal to IEEE-754",
                               "quadtree mid-lines: the executable instance halves exactly on a grid pre-scaled by 2^16 (16 levels); the theorems hold for an arbitrary mid function"],
     assumptions=["encoded index smaller than 2^32 bytes (the u32 address fields wrap beyond it; same limit in the Go code)", "R-tree height <= 255 (stored in one byte)"],
-    partial=["predicates that consume the edge index of a point lying on a shared vertex (ring.go:127-185): proved independent of which of the segments through the point is reported, for rings whose segments meet only at their ends (IndexChoice.v: rcs_choice_independent; strict mode consults no index); for rings that touch or cross themselves it rests on the correspondence over the three index kinds (C01/C02/C03 streams)"],
+    partial=["predicates that consume the edge index of a point lying on a shared vertex (ring.go:127-185): proved independent of which of the segments through the point is reported, for rings whose segments meet only at their ends (IndexChoice.v: rcs_choice_independent; strict mode consults no index; IndexChoice2.v: the point search over the candidates in ANY order reports validly, so every candidate order gives the same answer); for rings that touch or cross themselves it rests on the correspondence over the three index kinds (C01/C02/C03 streams)"],
 )
 
 OBJ_TB = COMMON_TB + ["object trees are built through the public constructors (NewPoint ... NewFeatureCollection) from an integer encoding; the child-index threshold is set through the verif hook VerifSetChildIndex (re-runs parseInitRectIndex)",
